@@ -1,6 +1,7 @@
 package sim
 
 import (
+	crand "crypto/rand"
 	"bufio"
 	"encoding/json"
 	"flag"
@@ -158,6 +159,11 @@ func executePlan(t *testing.T, p *Plan, keepLog bool) *RunRecord {
 	rec := &RunRecord{Run: p.Run, Flavor: p.Flavor, World: worldTag(p)}
 	start := time.Now()
 	cryptotest.SetGlobalRandom(t, Mix(p.Seed, uint64(p.Run), 0xc4))
+	if os.Getenv("VERIF_DEBUG_RAND") == "1" {
+		var b [4]byte
+		_, _ = crand.Read(b[:])
+		fmt.Fprintf(os.Stderr, "RAND run=%d %x\n", p.Run, b)
+	}
 	func() {
 		defer func() {
 			if r := recover(); r != nil {
@@ -330,7 +336,7 @@ func TestWorker(t *testing.T) {
 			if curF != nil {
 				curF.WriteAt([]byte(fmt.Sprintf("{\"run\":%12d}\n", i)), 0)
 			}
-			rec := executePlan(t, p, false)
+			rec := executePlan(t, p, os.Getenv("VERIF_EXPLORE_LOG") == "1")
 			if len(rec.Violations) > 0 && !perRun {
 				// the plan travels with the first 40 runs of each violation class; later ones are
 				// counted without it, and a worker that has seen 5000 violating runs stops: nothing
